@@ -52,7 +52,7 @@ def spy_pruning(log):
         yield
 
 
-READ_APIS = ["scan", "scan_par2", "batches1", "batches2", "batches_big", "iter_records"]
+READ_APIS = ["scan", "scan_par2", "batches1", "batches2", "batches_big", "iter_records", "batches3_keep"]
 
 
 def setup_append(table, rows, **kw):
@@ -124,6 +124,10 @@ def run_read(table, api, flt=None, columns=None, verify=None, container=None):
         return table.scan(parallel=2, **kw)
     if api == "scan_parT":
         return table.scan(parallel=True, **kw)
+    if api == "batches3_keep":
+        # the caller collects the batches first and looks at them afterwards: a yielded batch belongs to the caller
+        kept = list(table.scan_batches(batch_size=3, **kw))
+        return [r for b in kept for r in b]
     if api.startswith("batches"):
         bs = {"batches1": 1, "batches2": 2, "batches3": 3, "batches_big": 10000}[api]
         out = []
